@@ -59,7 +59,13 @@ impl InkList {
             ink_list.items.insert(item.clone(), *value);
         }
 
-        ink_list.initial_origin_names = other_list.initial_origin_names.clone();
+        // As in the reference engine, a copy remembers the origin names of the list it was
+        // copied from (derived from its items when it has any), so that a list emptied by an
+        // operation still knows its origins, whatever the history of the source value.
+        let mut origin_names = other_list.get_origin_names();
+        origin_names.sort();
+        origin_names.dedup();
+        ink_list.initial_origin_names = RefCell::new(origin_names);
 
         ink_list.origins = other_list.origins.clone();
 
